@@ -204,9 +204,9 @@ CHECKS = {
         technique='Lean 4 proof (decision tables, interval colouring, composition of refinements) + model/implementation correspondence',
         design='§4 C03'),
     'C04': dict(
-        text='Theorems: the one-image theorem - on a regular NCCH (sections pairwise apart: a decidable predicate evaluated on '
-             'every generated image; get_data of each section returns the slice of that section\'s plaintext, as the C03 section '
-             'theorems give and as is proved outright for containers without encryption) EVERY read of the fully-decrypted view, '
+        text='Theorems: the one-image theorem - on a regular NCCH (a decidable predicate readGeomB: the six regions stay apart, '
+             'every chunk lies inside its section\'s plaintext, the header is chunk 0; evaluated on every generated image - all of '
+             'them meet it) EVERY read of the fully-decrypted view, '
              'at any offset and length (inside a chunk, straddling sections, over gaps, to the end), is the corresponding slice of '
              'one image, hence equal to the slice of a whole-image read; proved through a plan theorem (the planned pieces stand '
              'for exactly the chunks of the aligned request, in order, each once, keys unique, last piece = last chunk) and an '
@@ -214,8 +214,9 @@ CHECKS = {
              'rewrite touches exactly two bytes, no key is set up for a no-crypto image.  Tied to the code by differential '
              'execution of seek/read histories centred on section and chunk boundaries, with the monitor = slice of the '
              'independent specification image, the declared size, and a key-less re-parse compared section by section.',
-        note=COMMON_NOTE + 'the slice semantics of get_data for ENCRYPTED sections is a hypothesis of the one-image theorem '
-             '(discharged by the C01/C03 stream theorems on paper, by correspondence in the check); builder is the trusted specification.',
+        note=COMMON_NOTE + 'get_data = slice of the section plaintext (plain window, CTR-decrypted window, two-key ExeFS '
+             'concatenation) is a theorem (C04_section_sources), so the one-image theorem has only decidable hypotheses; reads clamped '
+             'at the content size are covered by correspondence; builder is the trusted specification.',
         technique='Lean 4 proof (plan/assembly theorems, one-image theorem) + model/implementation correspondence with metamorphic re-parse',
         design='§4 C04'),
     'C05': dict(
